@@ -56,6 +56,22 @@ inline HashRes hash_rn(const Bytes &phrase, const Bytes &setting) {
   }
   return r;
 }
+// the same call on an object whose every byte is non-zero garbage (the result must not depend on it)
+inline HashRes hash_rn_dirty(const Bytes &phrase, const Bytes &setting, unsigned char fill = 0x5a) {
+  static struct crypt_data *cd = nullptr;
+  if (!cd) cd = (struct crypt_data *)malloc(sizeof *cd);
+  memset(cd, fill, sizeof *cd);
+  HashRes r;
+  errno = 0;
+  char *p = crypt_rn(phrase.c_str(), setting.c_str(), cd, (int)sizeof *cd);
+  r.err = errno;
+  r.field.assign(cd->output, strnlen(cd->output, sizeof cd->output));
+  if (p) {
+    r.ok = true;
+    r.out.assign(p, strnlen(p, sizeof cd->output));
+  }
+  return r;
+}
 inline HashRes hash_r2(const Bytes &phrase, const Bytes &setting) {
   HashRes r;
   R2 &R = R2::get();
